@@ -60,11 +60,11 @@ theorem listSame_shiftl (h : Heap) (c : Cell) : ListSame h (Map.shiftl h c) := b
 theorem listSame_rebal (h : Heap) (p : Nat) : ListSame h (Map.rebal h p).1 := by
   unfold Map.rebal
   simp only []
-  split
-  · exact listSame_shiftr _ _
-  · split
-    · exact listSame_shiftl _ _
-    · exact listSame_refl _
+  repeat' split
+  all_goals first
+    | exact listSame_refl _
+    | exact listSame_shiftr _ _
+    | exact listSame_shiftl _ _
 
 theorem listSame_insertLoop : ∀ (fuel : Nat) (h : Heap) (p old : Nat) (h' : Heap),
     Map.insertRebalance_loop fuel h p old = some h' → ListSame h h' := by
